@@ -41,8 +41,8 @@ struct Sys {
 
 /// how long a whole `lockrun` may take before the threads are given up as deadlocked (a healthy
 /// run takes well under 0.5 s); after two such verdicts in this process later runs wait less
-const RUN_TIMEOUT: Duration = Duration::from_secs(5);
-const RUN_TIMEOUT_AFTER_DEADLOCKS: Duration = Duration::from_millis(1500);
+const RUN_TIMEOUT: Duration = Duration::from_secs(30);
+const RUN_TIMEOUT_AFTER_DEADLOCKS: Duration = Duration::from_millis(8000);
 static DEADLOCKS: std::sync::atomic::AtomicUsize = std::sync::atomic::AtomicUsize::new(0);
 /// states expanded before the search gives up (same budget as the Lean driver)
 const SEARCH_LIMIT: usize = 200_000;
